@@ -248,7 +248,7 @@ Constraint *create_less_than_value_constraint(intptr_t expected_value, const cha
     constraint->type = CGREEN_VALUE_COMPARER_CONSTRAINT;
 
     constraint->compare = &compare_want_lesser_value;
-    constraint->execute = &test_true;
+    constraint->execute = &test_want;
     constraint->name = "be less than";
     constraint->expected_value_message = "\t\texpected to be less than:\t[%" PRIdPTR "]";
     constraint->size_of_expected_value = sizeof(intptr_t);
@@ -261,7 +261,7 @@ Constraint *create_greater_than_value_constraint(intptr_t expected_value, const 
     constraint->type = CGREEN_VALUE_COMPARER_CONSTRAINT;
 
     constraint->compare = &compare_want_greater_value;
-    constraint->execute = &test_true;
+    constraint->execute = &test_want;
     constraint->name = "be greater than";
     constraint->expected_value_message = "\t\texpected to be greater than:\t[%" PRIdPTR "]";
     constraint->size_of_expected_value = sizeof(intptr_t);
@@ -426,7 +426,7 @@ Constraint *create_less_than_double_constraint(double expected_value, const char
     constraint->type = CGREEN_DOUBLE_COMPARER_CONSTRAINT;
 
     constraint->compare = &compare_want_lesser_double;
-    constraint->execute = &test_true;
+    constraint->execute = &test_want_double;
     constraint->name = "be less than double";
     constraint->destroy = &destroy_double_constraint;
     constraint->expected_value_message = "\t\texpected to be less than:\t[%08f]";
@@ -439,7 +439,7 @@ Constraint *create_greater_than_double_constraint(double expected_value, const c
     constraint->type = CGREEN_DOUBLE_COMPARER_CONSTRAINT;
 
     constraint->compare = &compare_want_greater_double;
-    constraint->execute = &test_true;
+    constraint->execute = &test_want_double;
     constraint->name = "be greater than double";
     constraint->destroy = &destroy_double_constraint;
     constraint->expected_value_message = "\t\texpected to be greater than:\t[%08f]";
